@@ -134,6 +134,34 @@ class Prop:
                             hs = rng.sample(hs, max(1, len(hs) // (2 if n < 4 else 4)))
                         for hist in hs:
                             yield dict(typed=True, univ=hu, nodes=nodes, query=KINDS, hist=hist)
+        # the FALSY kind "" is a legal kind: nodes that carry it, and "" as a query kind that is absent
+        KF = ["", "a", "b"]
+        for n in range(1, 4 if tier == "quick" else 5):
+            for shape in H.forests(n):
+                assigns = list(itertools.product(range(3), repeat=n))
+                if n > 3:
+                    assigns = rng.sample(assigns, 20)
+                for ks in assigns:
+                    nodes = B.shape_to_nodes(shape, lambda i, d, s, ks=ks: (i % len(hu), KF[ks[i]], f"id{i}"))
+                    yield dict(typed=True, univ=hu, nodes=nodes, query=["", "a", "c"])
+                for ks in itertools.product(range(1, 3), repeat=n):     # no node of kind ""
+                    nodes = B.shape_to_nodes(shape, lambda i, d, s, ks=ks: (i % len(hu), KF[ks[i]], f"id{i}"))
+                    yield dict(typed=True, univ=hu, nodes=nodes, query=["", "b"])
+        for _ in range(20 if tier == "quick" else 200):
+            n = rng.randint(4, 12)
+            shape = H.random_shape(rng, n, deep=rng.choice([0.1, 0.4, 0.8]))
+            ks = [rng.randrange(3) for _ in range(n)]
+            nodes = B.shape_to_nodes(shape, lambda i, d, s, ks=ks: (i % len(hu), KF[ks[i]], f"id{i}"))
+            yield dict(typed=True, univ=hu, nodes=nodes, query=["", "a", "c"], order_seed=rng.randrange(10 ** 6),
+                       hist=NH.random_hist(rng, n, len(hu), True, rng.randint(0, 4)))
+        # aimed query - mutate - query: clear (alone, and followed by new nodes), sort, on every small forest
+        for n in range(1, 4):
+            for shape in H.forests(n):
+                nodes = B.shape_to_nodes(shape, lambda i, d, s: (i % len(hu), KINDS[i % 2], f"id{n - i}"))
+                for hist in ([["clear"]], [["clear"], ["add", -1, 0, "a", "z0", None], ["add", n, 1, "b", "z1", None]],
+                             [["sort", -1, False, True]], [["sort", -1, True, False], ["add", -1, 2, "a", "z2", True]],
+                             [["remove", 0], ["add", -1, 3, "b", "z3", None]]):
+                    yield dict(typed=True, univ=hu, nodes=nodes, query=KINDS, hist=hist)
         for _ in range(40 if tier == "quick" else 300):
             n = rng.randint(3, 12)
             shape = H.random_shape(rng, n, deep=rng.choice([0.1, 0.4, 0.8]))
@@ -151,13 +179,33 @@ class Prop:
 
     # ----- one case: build, observe implementation, oracle
     def run(self, desc) -> Case:
-        global _LID
         hist_fail = None
         if "hist" in desc:
-            tree, U, objs, sh, errors = NH.build_hist(desc)
-            hist_fail = NH.consistency(tree, objs, sh, errors)
+            early = []
+
+            def probe(tree, U, objs, sh, errors, k):
+                # QUERY - mutate - query again: every query is asked before every op of the history as well, on the same
+                # tree object (an index or cache that some mutator forgets to reset would answer from the old state)
+                f = NH.consistency(tree, objs, sh, errors) or self._observe(tree, U, desc)[1]
+                if f and not early:
+                    early.append(f"before step {k} of the history: {f}")
+
+            tree, U, objs, sh, errors = NH.build_hist(desc, probe if desc.get("probe", True) else None)
+            hist_fail = (early[0] if early else None) or NH.consistency(tree, objs, sh, errors)
         else:
             tree, U = B.build(desc)
+        obs, fail, nodes, coq = self._observe(tree, U, desc)
+        fail = hist_fail or fail
+        kinds_in_sibs = [len({c.kind for c in (p._children or [])}) for p in [tree._root] + nodes]
+        sizes = [len(p._children or []) for p in [tree._root] + nodes]
+        return Case(desc=desc, coq_input=coq, impl_obs=obs, oracle_fail=fail,
+                    nontrivial=max(sizes, default=0) >= 2 or bool(desc.get("hist")),
+                    key=H.digest([desc["nodes"], desc.get("order_seed"), desc.get("hist"), desc["query"]]),
+                    stats=dict(nodes=len(nodes), max_sibs=max(sizes, default=0), max_kinds_per_list=max(kinds_in_sibs, default=0)))
+
+    def _observe(self, tree, U, desc):
+        """ask every query on the tree as it is now; returns (observation, oracle failure, nodes, model input)"""
+        global _LID
         ks = [ANY_KIND] + list(desc["query"])
         nodes = B.all_nodes(tree._root)
         local = {H.nid(x): i + 1 for i, x in enumerate(nodes)}
@@ -186,15 +234,10 @@ class Prop:
         top = [[on(call(lambda: tree.first_child(k))), on(call(lambda: tree.last_child(k)))] for k in ks]
         obs = [per_node, it, top]
 
-        fail = hist_fail or self.oracle(tree, nodes, ks, obs)
+        fail = self.oracle(tree, nodes, ks, obs)
         forest = re.sub(r"\(Tz (\d+) ", lambda m: f"(Tz {local[int(m.group(1))]} ", H.coq_forest(tree._root, U))
         coq = f"({forest}, {H.coq_list(H.coq_text(k) for k in desc['query'])})"
-        kinds_in_sibs = [len({c.kind for c in (p._children or [])}) for p in [tree._root] + nodes]
-        sizes = [len(p._children or []) for p in [tree._root] + nodes]
-        return Case(desc=desc, coq_input=coq, impl_obs=obs, oracle_fail=fail,
-                    nontrivial=max(sizes, default=0) >= 2,
-                    key=H.digest([desc["nodes"], desc.get("order_seed"), desc.get("hist")]),
-                    stats=dict(nodes=len(nodes), max_sibs=max(sizes, default=0), max_kinds_per_list=max(kinds_in_sibs, default=0)))
+        return obs, fail, nodes, coq
 
     # ----- the property statement, executed directly on pointer structure
     def oracle(self, tree, nodes, ks, obs):
